@@ -767,6 +767,19 @@ def r18_11(ctx):
             if x[0] == "agg" and isinstance(x[1], str) and x[1].endswith("ops::Range") and len(x[3]) == 2:
                 lo, hi = mir.int_value(x[3][0]), (mir.int_value(x[3][1]) or 0) - 1
     if lo is None:
+        # the classification may be delegated to a crate helper (rtp::is_rtcp): read the range there
+        for t in b.var_def_terms(li[0]):
+            for x in mir.walk(t):
+                if x[0] == "call" and ctx.facts.has_body(x[1]):
+                    cb = ctx.facts.body(x[1])
+                    terms = [cb.term_rvalue(st["rv"]) for _bi, _si, st in cb.assigns()] + \
+                            [cb.term_call(tt) for _bi, tt, _p in cb.calls()]
+                    for ct in terms:
+                        for y in mir.walk(ct):
+                            if y[0] == "call" and y[1].endswith("RangeInclusive::<Idx>::new") and len(y[2]) == 2:
+                                lo, hi = mir.int_value(y[2][0]), mir.int_value(y[2][1])
+                                r.scope.append(cb.name)
+    if lo is None:
         raise core.CheckerError("R18.11: is_rtcp is not a range test")
     if lo <= 192 and hi >= 223:
         r.ok({"is_rtcp": "packet[1] in %d..=%d" % (lo, hi)})
